@@ -400,7 +400,7 @@ func init() {
 		ID:        "C09",
 		Inst:      true,
 		Technique: "deviation-bounded exhaustive exploration of Go map iteration orders at every range-over-map site of the repository (type-driven source rewriting through the build overlay), all permutations of AddType/AddRule calls, repetition with heap perturbation, and a cross-process comparison with the uninstrumented binary",
-		Rule: "family: projects with 3 types from 6 valid/broken forms x 5 roots, format/banned-rule/enum-rule projects, a slice of the annotated-model family, allOf graphs with several failing ancestors, enum/regex/JSON-document/GuessSchemaType inputs; for each: every map order (all n! for n<=4, pair-complete set above) at <=1 (thorough 2) deviating sites per execution, all registration orders, two runs in-process, one run in another process; all observables (error code, message, position, offending type, Len, AST, example, used types, OpenAPI) must be identical; non-trivial = cases with more than one explored environment",
+		Rule:      "family: projects with 3 types from 6 valid/broken forms x 5 roots, format/banned-rule/enum-rule projects, a slice of the annotated-model family, allOf graphs with several failing ancestors, enum/regex/JSON-document/GuessSchemaType inputs; for each: every map order (all n! for n<=4, pair-complete set above) at <=1 (thorough 2) deviating sites per execution, all registration orders, two runs in-process, one run in another process; all observables (error code, message, position, offending type, Len, AST, example, used types, OpenAPI) must be identical; non-trivial = cases with more than one explored environment",
 		Bounds: func(tier string) map[string]any {
 			return map[string]any{"deviating_sites": map[string]int{"quick": 1, "thorough": 2}[tier], "per_case_execution_cap": 20000}
 		},
